@@ -94,9 +94,21 @@ func isNodeNameTest(atom ssa.Value, truth bool) bool {
 		k, ok := v.(*ssa.Const)
 		return ok && k.Value != nil && k.Value.Kind() == constant.String && constant.StringVal(k.Value) == "Node"
 	}
+	// what is compared with "Node": the name of a definition, or the key of the ranged map
+	isName := func(v ssa.Value) bool {
+		switch x := unwrap(v).(type) {
+		case *ssa.UnOp:
+			fa, ok := x.X.(*ssa.FieldAddr)
+			return ok && x.Op == token.MUL && fieldOf(fa) != nil && fieldOf(fa).Name() == "Name"
+		case *ssa.Extract:
+			_, ok := x.Tuple.(*ssa.Next)
+			return ok && x.Index == 1
+		}
+		return false
+	}
 	switch c := atom.(type) {
 	case *ssa.BinOp:
-		if (c.Op == token.EQL || c.Op == token.NEQ) && (isNodeConst(c.X) || isNodeConst(c.Y)) {
+		if (c.Op == token.EQL || c.Op == token.NEQ) && ((isNodeConst(c.X) && isName(c.Y)) || (isNodeConst(c.Y) && isName(c.X))) {
 			return (c.Op == token.EQL) == truth
 		}
 	case *ssa.Call:
@@ -140,7 +152,7 @@ func ruleMergerGuards(r *Run) {
 		}
 		var foundSide map[*ssa.BasicBlock]bool
 		var foundEdges []edge
-		var kindG, nodeG *guard
+		var kindG, nodeG *agreeGuard
 		selfKind := false
 		for _, ins := range allInstrs(mt) {
 			iff, ok := ins.(*ssa.If)
@@ -269,6 +281,9 @@ func ruleMergerGuards(r *Run) {
 					site = r.P.pos(w.Pos())
 					if w.Pos() == token.NoPos {
 						site = r.P.pos(firstPos(w.Block()))
+						if firstPos(w.Block()) == token.NoPos {
+							site = r.P.pos(firstPos(e.to))
+						}
 					}
 				}
 				r.Check(w == nil, rule, name, "every way past an existing name compares the kinds", site,
@@ -428,15 +443,43 @@ func ruleMergerGuards(r *Run) {
 		if nodeCall == nil {
 			r.Bad(rule, fnName(mf), "Node overlap test", r.P.pos(mf.Pos()), "mergeCustomObjectFields no longer asks whether the shared type implements Node")
 		} else {
+			// where a field of the other definition was found among the fields collected so far
+			overlapSide := map[*ssa.BasicBlock]bool{}
+			for _, ins := range allInstrs(mf) {
+				iff, ok := ins.(*ssa.If)
+				if !ok {
+					continue
+				}
+				nonNil, known := resolveNilTest(iff.Cond, func(v ssa.Value) bool {
+					c, isCall := v.(*ssa.Call)
+					return isCall && strings.HasSuffix(calleeName(&c.Call), "ast.FieldList).ForName")
+				}, 0)
+				if !known {
+					continue
+				}
+				side := iff.Block().Succs[0]
+				if !nonNil {
+					side = iff.Block().Succs[1]
+				}
+				overlapSide = union(overlapSide, dominatedBy(side))
+			}
 			sawSome := false
 			q := &pathQuery{
 				settleEdge: func(atom ssa.Value, truth bool) bool {
 					if _, ok := isNodePredicateCall(atom); ok && !truth {
 						return true
 					}
+					// "some field overlaps": an or-accumulated flag, or the list of the
+					// overlapping fields not being empty
 					if isExistsAccumulator(atom) {
 						sawSome = true
 						return !truth
+					}
+					if e := lenOperand(atom); e != nil && isListOf(e, func(b *ssa.BasicBlock) bool { return overlapSide[b] }) {
+						if empty, ok := emptinessTest(atom, truth, e); ok {
+							sawSome = true
+							return empty
+						}
 					}
 					return false
 				},
